@@ -40,11 +40,17 @@ def replay_case(arg):
         with warnings.catch_warnings():
             warnings.simplefilter('error', RuntimeWarning)
             leaves = [build_leaf(m) for m in rec['subs']]
-            pop = chi.ReducedPopulationModel(chi.ComposedPopulationModel(leaves))
             nids = 1
+            if hist and hist[0][0] == 'pre':
+                # PopReconfig!RC_Pre: the leaf's own history before it is composed
+                leaves[hist[0][1] // 10 - 1].set_n_ids(hist[0][1] % 10)
+                nids = hist[0][1] % 10
+            pop = chi.ReducedPopulationModel(chi.ComposedPopulationModel(leaves))
             fixed_now = {}
             for op, a in hist:
-                if op == 'nids':
+                if op == 'pre':
+                    pass
+                elif op == 'nids':
                     pop.set_n_ids(a)
                     nids = a
                 elif op in ('fix', 'release'):
